@@ -439,7 +439,14 @@ def run(props, repo, kinds=None, funcs=None, jobs=16):
         nm = f.node.name
         if nm.startswith("_") and not nm.startswith("__"):
             import re as _re
+            strs = []
+            for x_ in ast.walk(repo.modules[rel].tree0 if hasattr(repo.modules[rel], "tree0") else ast.parse(repo.modules[rel].text)):
+                if isinstance(x_, ast.Constant) and isinstance(x_.value, (str, bytes)) and hasattr(x_, "end_lineno"):
+                    strs.append((offs[x_.lineno - 1] + x_.col_offset, offs[x_.end_lineno - 1] + x_.end_col_offset, x_.value))
             occ = [(m_.start(), m_.end(), nm + "_renamed") for m_ in _re.finditer(rb"(?<![A-Za-z0-9_])" + _re.escape(nm.encode()) + rb"(?![A-Za-z0-9_])", b)]
+            occ = [o for o in occ if not any(a_ <= o[0] < e_ for a_, e_, _v in strs)]
+            if any(v_ == nm for _a, _e, v_ in strs):
+                occ = []        # the name is also used as a string (getattr): a rename outside strings would not preserve behaviour
             if occ and not _re.search(rb"(?<![A-Za-z0-9_])" + _re.escape((nm + "_renamed").encode()) + rb"(?![A-Za-z0-9_])", b):
                 extra.append(("METHRENAME", occ, None, None, f.node.lineno, "rename private method %s everywhere in the module" % nm))
         for t in twins_in(f.node, b, offs, top_start) + extra:
